@@ -29,6 +29,8 @@ ASSUMPTIONS = [
     "pre-emption granularity is one source line of more_executors/_impl plus every primitive operation",
     "several threads calling shutdown() and callables that wait on work only their own thread can run are user errors and are not generated",
     "blocking-mode throttle with count 0 is not generated here (owned by C07/C11)",
+    "four recorded, unrepaired deadlock shapes (known_findings.json: K2 gate / K2 retry-lock / K2N / K3) are recognised by the structure of the end "
+    "state and excluded from the search by signature; the evidence counts them",
 ]
 
 
@@ -54,38 +56,81 @@ def signature(s):
 
 
 K2 = "C04:hang:outer-layer-lock-held-across-blocking-throttle-submit"
+K2N = "C04:hang:nested-submit-parked-by-blocking-throttle"
+K3 = "C04:deadlock:retry-submit_now-runs-inline-callable-under-its-locks"
 
 
-def outer_lock_across_blocking_throttle(s, w):
-    """The one recorded, unrepaired deadlock shape (known finding K2), recognised structurally:
-    some thread is parked in ThrottleExecutor._block_until_ready of a blocking throttle *called from a layer above it*,
-    and a blocking throttle's own hand-over thread - the only thread that drains its queue - waits for a mutex that does
-    not belong to that throttle (the shutdown gate or executor lock of the outer layer).  Anything else keeps its
-    ordinary signature."""
+def _frames(t):
+    """[(file, function)] innermost first"""
+    return [(fr.split(":")[0], fr.split(":")[2]) for fr in (t.get("stack") or []) if fr.count(":") >= 2]
+
+
+def known_shape(s, w):
+    """Structural recognition of the recorded, unrepaired deadlock shapes (DESIGN section 7: K2, K2N, K3).  Each needs a
+    very specific end state; every other hang or cycle keeps its ordinary signature and is reported.
+
+    K2N  a thread that is NOT a client thread (a pool worker, or the worker thread of another layer) is parked in
+         ThrottleExecutor._block_until_ready of a blocking throttle - a submit() issued by user code running on a library
+         thread found the queue full - and that thread is not the hand-over thread of that same throttle (that would be
+         the repaired defect F13).
+    K3   a callable run inline by RetryExecutor._submit_now (synchronous delegate: ... retry.py:_submit_now ->
+         sync.py:submit -> user code -> API call) waits for a mutex: the retry executor's own locks are held across it.
+    K2   a thread is parked in _block_until_ready reached *through a layer above the throttle*, and a library thread (the
+         throttle's hand-over thread, or a worker running user code) waits for that outer layer's shutdown gate or for
+         RetryExecutor's executor lock."""
     if w is None:
         return None
+    throttles = [ex for levels in w.exs.values() for ex in levels
+                 if type(ex).__name__ == "ThrottleExecutor" and getattr(ex, "_block", False)]
+    live = [t for t in s.final_threads if not t["done"]]
+    # --- K2N
+    for t in live:
+        if t["client"] or not t.get("loc") or t["loc"][1] != "_block_until_ready":
+            continue
+        fr = _frames(t)
+        if ("throttle.py", "_block_until_ready") not in fr or not any(f == "world.py" for f, _ in fr):
+            continue
+        # whose _block_until_ready?  if the parked thread is a blocking throttle's own hand-over thread and it is parked in
+        # THAT throttle, this is F13 again, not K2N.
+        own = [ex for ex in throttles if id(ex) == t.get("park_self")]
+        if own and getattr(getattr(own[0]._thread, "_vt", None), "tid", None) == t.get("tid"):
+            continue
+        return K2N
+    # (the same one step earlier: the nested submit() queues behind a client submit() that is parked on the full queue)
+    turn_locks = set(id(ex._block_lock) for ex in throttles if getattr(ex, "_block_lock", None) is not None)
+    for t in live:
+        fr = _frames(t)
+        if not t["client"] and t.get("blocked_id") in turn_locks and fr[:1] == [("throttle.py", "submit")] and any(f == "world.py" for f, _ in fr):
+            return K2N
+    # --- K3
+    for t in live:
+        fr = _frames(t)
+        if ("sync.py", "submit") in fr and str(t.get("blocked_on", "")).startswith(("CLock", "CRLock")):
+            i = fr.index(("sync.py", "submit"))  # innermost inline execution
+            if ("retry.py", "_submit_now") in fr[i + 1:] and any(f == "world.py" for f, _ in fr[:i]):
+                return K3
+    # --- K2
     outer_files = ("map.py", "retry.py", "cancel_on_shutdown.py", "poll.py", "timeout.py", "asyncio.py", "flat_map.py")
     parked_from_outer = False
-    for t in s.final_threads:
-        if t["done"] or not t.get("loc") or t["loc"][1] != "_block_until_ready":
+    for t in live:
+        if not t.get("loc") or t["loc"][1] != "_block_until_ready":
             continue
-        files = [fr.split(":")[0] for fr in (t.get("stack") or [])]
-        if any(f in outer_files for f in files):
+        if any(f in outer_files for f, _ in _frames(t)):
             parked_from_outer = True
     if not parked_from_outer:
         return None
-    by_name = {}
-    for t in s.final_threads:
-        by_name.setdefault(t["name"], []).append(t)
-    for levels in w.exs.values():
-        for ex in levels:
-            if type(ex).__name__ != "ThrottleExecutor" or not getattr(ex, "_block", False):
-                continue
-            own = set(id(x) for x in (getattr(ex, "_lock", None), getattr(ex, "_block_lock", None), getattr(ex._shutdown, "_lock", None)))
-            for t in by_name.get(ex._thread.name, []):
-                if not t["done"] and t.get("blocked_id") is not None and t["blocked_id"] not in own:
-                    # which kind of outer lock: the shutdown gate of a layer, or RetryExecutor's executor lock
-                    return K2 + ":" + str(t["blocked_on"]).split("@")[-1]
+    own = set()
+    for ex in throttles:
+        own.update(id(x) for x in (getattr(ex, "_lock", None), getattr(ex, "_block_lock", None), getattr(ex._shutdown, "_lock", None)))
+    # a library thread - the throttle's hand-over thread, or a worker running user code that submits - whose progress frees
+    # capacity waits for a mutex of the outer layer
+    for t in live:
+        if t["client"] or not str(t.get("blocked_on", "")).startswith(("CLock", "CRLock")) or t.get("blocked_id") is None or t["blocked_id"] in own:
+            continue
+        site = str(t["blocked_on"]).split("@")[-1]
+        if site in ("helpers.py:ShutdownHelper.__init__", "retry.py:RetryExecutor.__init__"):
+            # which kind of outer lock: the shutdown gate of a layer, or RetryExecutor's executor lock
+            return K2 + ":" + site
     return None
 
 
@@ -102,7 +147,7 @@ def evaluate(case):
     }
     viols = []
     if s.end_reason in ("deadlock", "stuck", "vtime"):
-        sig = outer_lock_across_blocking_throttle(s, w) or signature(s)
+        sig = known_shape(s, w) or signature(s)
         detail = {
             "end_reason": s.end_reason,
             "deadlock": s.deadlock,
@@ -121,7 +166,7 @@ def evaluate(case):
         if stuck_ops:
             o = stuck_ops[0]
             where = [t for t in s.final_threads if t["name"] == o["thread"]]
-            sig = outer_lock_across_blocking_throttle(s, w) or "C04:call-never-returned:%s-on-%s" % (o["op"][0], o["thread"].split("-")[0])
+            sig = known_shape(s, w) or "C04:call-never-returned:%s-on-%s" % (o["op"][0], o["thread"].split("-")[0])
             viols.append({"signature": sig,
                           "detail": {"op": o["op"][:3], "thread": where, "end_reason": s.end_reason}})
     if w is not None and w.errors:
@@ -259,6 +304,25 @@ def nested_cases():
                          ["result", "f1", 5], ["result", "n0", 5]],
                         [["sleep", 0.5], ["submit", "ex", "f2", {"script": [["tag"]]}], ["result", "f2", 5]]],
             "final": [], "settle": 2}))
+    # (b5) known findings K2N / K3 as deterministic programs (excluded by signature, counted in the evidence)
+    out.append(("callable/throttle-block-nested-from-the-only-pool-worker", {
+        "setup": [["build", "ex", {"base": {"kind": "pool", "workers": 1}, "layers": [{"kind": "throttle", "count": 1, "block": True}]}]],
+        "threads": [[["submit", "ex", "f0", {"script": [["gate", "g", ["submit", "ex", "n0", inner, ["tag"]]]]}], ["sleep", 0.25],
+                     ["submit", "ex", "f1", {"script": [["tag"]]}], ["open", "g"], ["result", "f0", 5], ["result", "f1", 5]]],
+        "final": [], "settle": 2}))
+    out.append(("callback-internal/throttle-block-over-poll-nested-from-the-poll-thread", {
+        "setup": [["build", "ex", {"base": {"kind": "sync"}, "layers": [{"kind": "poll", "interval": 0.25, "per_sub": {}}, {"kind": "throttle", "count": 1, "block": True}]}]],
+        "threads": [[["submit", "ex", "f0", {"script": [["tag"]]}], ["add_cb", "f0", "cb0", ["op", ["submit", "ex", "n0", inner]]],
+                     ["submit", "ex", "f1", {"script": [["tag"]]}], ["submit", "ex", "f2", {"script": [["tag"]]}], ["result", "f0", 5], ["result", "f2", 5]]],
+        "final": [], "settle": 2}))
+    for tname, tops in (("retry", []), ("retry+map", [{"kind": "map", "fn": [["app", "m"]], "err": None}]),
+                        ("retry+retry", [{"kind": "retry", "policy": {"type": "exc", "max_attempts": 2, "sleep": 0.25}}])):
+        out.append(("callable/sync+%s-nested-while-another-submit-is-in-progress" % tname, {
+            "setup": [["build", "ex", {"base": {"kind": "sync"}, "layers": [{"kind": "retry", "policy": {"type": "exc", "max_attempts": 2, "sleep": 0.25}}] + tops}]],
+            "threads": [[["submit", "ex", "f0", {"script": [["gate", "g", ["submit", "ex", "n0", inner, ["tag"]]]]}], ["sleep", 0.5], ["open", "g"],
+                         ["result", "f0", 5], ["result", "n0", 5]],
+                        [["sleep", 0.25], ["submit", "ex", "f2", {"script": [["tag"]]}], ["result", "f2", 5]]],
+            "final": [], "settle": 2}))
     out.append(("callable/throttle-block-nested-on-handover-thread", {
         "setup": [["build", "ex", {"base": {"kind": "sync"}, "layers": [{"kind": "throttle", "count": 1, "block": True}]}]],
         "threads": [[["submit", "ex", "f0", {"script": [["gate", "g", ["submit", "ex", "n0", inner, ["tag"]]]]}], ["sleep", 0.25],
@@ -345,6 +409,9 @@ def case_strategy():
             st.just([["raise", "E0"], ["tag"]]),
             st.just([["vsleep", 0.5, ["tag"]]]),
             st.just([["raise", "E0"], ["raise", "E0"], ["raise", "E2"]]),
+            # callables that use the API themselves: nested submission, cancelling another future
+            st.builds(lambda i: [["submit", "ex", "nc_%d_%d" % (tid, i), {"script": [["tag"]]}, ["tag"]]], st.integers(0, 2)),
+            st.sampled_from(names).map(lambda n: [["cancel", n, ["tag"]]]),
         )
         op = st.one_of(
             st.builds(lambda i, sc: ["submit", "ex", "f%d_%d" % (tid, i), {"script": sc}], st.integers(0, 2), scripts),
@@ -353,6 +420,11 @@ def case_strategy():
             st.sampled_from(names).map(lambda n: ["add_cb", n, "cbn_%d_%s" % (tid, n),
                                                   ["op", ["submit", "ex", "n_%d_%s" % (tid, n), {"script": [["tag"]]}]]]),
             st.sampled_from(names).map(lambda n: ["result", n, 20]),
+            # done-callbacks that cancel another future / chain a further callback from a library thread
+            st.tuples(st.sampled_from(names), st.sampled_from(names)).map(
+                lambda nm: ["add_cb", nm[0], "cbc_%d_%s" % (tid, nm[0]), ["op", ["cancel", nm[1]]]]),
+            st.tuples(st.sampled_from(names), st.sampled_from(names)).map(
+                lambda nm: ["add_cb", nm[0], "cba_%d_%s" % (tid, nm[0]), ["op", ["add_cb", nm[1], "cbx_%d_%s" % (tid, nm[1])]]]),
         )
         if manual:
             op = st.one_of(op, st.just(["runall", "ex"]))
